@@ -76,3 +76,18 @@ Proof.
   eexists; exact cumulative_quorum_refuted.
 Qed.
 Print Assumptions C12_each_protection_is_necessary.
+
+(* the server's read actor (fast path of lease and eventual reads; model DE.ReadActor, probe read_actor): every lease
+   read that is served saw a valid lease at the moment of its own state machine read, also in the middle of a drained
+   batch, and once the lease is gone no lease read of the batch is served *)
+From DE Require Import ReadActor proofs.C12actor.
+Theorem C12_read_actor_served_lease_reads_saw_valid_lease : forall pols valid reads k p v,
+  In (p, v) (served_flags pols (fst (ra_run pols valid reads k)) (snd (ra_run pols valid reads k))) -> p = 2%N -> v = 1%N.
+Proof. exact served_lease_reads_saw_valid_lease. Qed.
+Print Assumptions C12_read_actor_served_lease_reads_saw_valid_lease.
+
+Theorem C12_read_actor_no_lease_read_without_lease : forall pols reads k,
+  (k = 0%N \/ (k <= reads)%N) ->
+  forall i, nth_error pols i = Some 2%N -> nth_error (fst (ra_run pols false reads k)) i = Some 2%N.
+Proof. exact no_lease_read_without_lease. Qed.
+Print Assumptions C12_read_actor_no_lease_read_without_lease.
